@@ -2,6 +2,7 @@ CAS2 = dict(file='include/machine_specific.h', replace_body={'compare_and_swap2'
 WEAVE = [CAS2,
          dict(file='include/dist_fifo.h', parse='test/test_dist_fifo.c', fns=['dist_fifo_push', 'dist_fifo_trypop']),
          dict(file='include/fiber_signal.h', parse='test/test_channel.c', fns=['fiber_multi_signal_wait', 'fiber_multi_signal_raise', 'fiber_multi_signal_raise_strict'], loops='loops.json'),
+         dict(file='include/mpmc_stack.h', parse='test/test_mpmc_stack.c', fns=['mpmc_stack_push', 'mpmc_stack_push_timeout', 'mpmc_stack_lifo_flush', 'mpmc_stack_reverse', 'mpmc_stack_fifo_flush'], loops='loops.json'),
          dict(file='include/mpmc_lifo.h', parse='test/test_mpmc_lifo.c', fns=['mpmc_lifo_push', 'mpmc_lifo_pop'], loops='loops.json')]
 GROUPS = [
     dict(name='lifo_pop', tu='lifo.c', harness='h_pop', mode='H', loop_contracts=True, defs=['-DVERIF_LOOP_FLAG'], functions=['mpmc_lifo_pop']),
@@ -9,6 +10,10 @@ GROUPS = [
     dict(name='msig_raise', tu='multisignal.c', harness='h_raise', mode='H', loop_contracts=True, defs=['-DVERIF_LOOP_FLAG'], functions=['fiber_multi_signal_raise']),
     dict(name='msig_raise_strict', tu='multisignal.c', harness='h_raise_strict', mode='H', loop_contracts=True, defs=['-DVERIF_LOOP_FLAG'], functions=['fiber_multi_signal_raise_strict']),
     dict(name='msig_wait', tu='multisignal.c', harness='h_wait', mode='H', loop_contracts=True, defs=['-DVERIF_LOOP_FLAG'], functions=['fiber_multi_signal_wait']),
+    dict(name='stack_push', tu='stack.c', harness='h_push', mode='D', enforce='mpmc_stack_push', functions=['mpmc_stack_push'], defs=['-DVERIF_LOOP_FLAG']),
+    dict(name='stack_push_timeout', tu='stack.c', harness='h_push_timeout', mode='D', enforce='mpmc_stack_push_timeout', functions=['mpmc_stack_push_timeout'], defs=['-DVERIF_LOOP_FLAG']),
+    dict(name='stack_lifo_flush', tu='stack.c', harness='h_lifo_flush', mode='H', functions=['mpmc_stack_lifo_flush'], defs=['-DVERIF_LOOP_FLAG'], unwind=2, exact_unwind=True),
+    dict(name='stack_reverse_le4', tu='stack.c', harness='h_reverse', mode='H', functions=['mpmc_stack_reverse'], defs=['-DVERIF_LOOP_FLAG'], unwind=6, bounded=True, bound='lists of <= 4 nodes'),
     dict(name='distfifo_trypop', tu='distfifo.c', harness='h_trypop', mode='H', functions=['dist_fifo_trypop'], unwind=4, exact_unwind=True),
     dict(name='distfifo_push', tu='distfifo.c', harness='h_push', mode='H', functions=['dist_fifo_push'], unwind=4, exact_unwind=True),
 ]
